@@ -167,10 +167,40 @@ def make_grid(hszinc):
     g = hszinc.Grid(version='3.0', columns=[(c, []) for c in ('id', 'a', 'b', 'c')])
     rows = [{'id': hszinc.Ref('x'), 'a': 'text', 'b': hszinc.MARKER}, {'a': 5.0, 'c': hszinc.MARKER}, {'a': hszinc.Uri('u')},
             {'a': hszinc.XStr('Type', 'x'), 'b': hszinc.MARKER}, {'a': hszinc.Ref('x')}, {'b': hszinc.MARKER},
-            {'a': hszinc.Quantity(5, 'exec')}, {'a': [1.0]}, {'a': {'k': 'v'}}, {'a': hszinc.Bin('text/plain')}]
+            {'a': hszinc.Quantity(5, 'exec')}, {'a': [1.0]}, {'a': {'k': 'v'}}, {'a': hszinc.Bin('text/plain')},
+            # a reference target whose id is a plain string, and a row pointing at it
+            {'id': 's1', 'a': 'site', 'b': hszinc.MARKER}, {'a': hszinc.Ref('s1'), 'c': hszinc.MARKER}, {'id': 7, 'a': hszinc.Ref('7')}]
     for r in rows:
         g.append(r)
     return g
+
+
+def lookup_keys(hszinc):
+    R = hszinc.Ref
+    return ['x', '@x', R('x'), 's1', '@s1', R('s1'), R('s1', 'dis'), 7, '7', '@7', R('7'), 'never', '@never', R('never'), 'text', '', '@']
+
+
+def grid_observations(hszinc, hs, gr):
+    """Everything a caller can see of the grid: content and row identities, version, and what every id spelling
+    looks up (row position, default, or the exception)."""
+    rows = list(gr)
+    seen = []
+    for key in lookup_keys(hszinc):
+        for how in ('item', 'get', 'in'):
+            try:
+                if how == 'item':
+                    v = gr[key]
+                elif how == 'get':
+                    v = gr.get(key, 'DEFAULT')
+                else:
+                    v = key in gr
+                if isinstance(v, dict):
+                    hit = [i for i, r in enumerate(rows) if r is v]
+                    v = 'row %r' % (hit or 'not-in-grid',)
+                seen.append((repr(key), how, repr(v)))
+            except Exception as e:   # noqa
+                seen.append((repr(key), how, type(e).__name__))
+    return (repr(hs.from_grid(gr)), repr([id(r) for r in gr]), str(gr.version), tuple(seen))
 
 
 def warm_up(hszinc, g):
@@ -276,9 +306,14 @@ def evaluate(ctx, mon, hszinc, gf, pp, g, text, pos, payload, grid_snap):
     if after[2] != before[2]:
         diff = sorted(set(k for k, _ in (set(after[2].items()) ^ set(before[2].items()))))
         viol('state:filter-module-globals-changed', 'filter module globals changed: %r' % (diff[:5],))
-    if grid_snap(g) != evaluate.snap0:
-        viol('state:grid-mutated', 'the grid changed')
-        evaluate.snap0 = grid_snap(g)
+    now = grid_snap(g)
+    if now != evaluate.snap0:
+        parts = [nm for nm, a, b in zip(('content', 'row identities', 'version', 'id lookups'), evaluate.snap0, now) if a != b]
+        detail = ''
+        if 'id lookups' in parts:
+            detail = '; lookups that changed: %r' % ([(a, b) for a, b in zip(evaluate.snap0[3], now[3]) if a != b][:4],)
+        viol('state:grid-mutated', 'the grid changed (%s)%s' % (', '.join(parts), detail))
+        evaluate.snap0 = now
     if outcome.startswith('other-exception'):
         ctx.cls('other-exception', outcome.split(':')[1], pos)
         # not a parse error and not an evaluation: only a *non-filter* text must give ParseException; an evaluation-time
@@ -304,8 +339,8 @@ def run_shard(spec, ctx):
     g = make_grid(hszinc)
 
     def grid_snap(gr):
-        return repr(hs.from_grid(gr)) + repr([id(r) for r in gr])
-    warm_up(hszinc, g)
+        return grid_observations(hszinc, hs, gr)
+    warm_up(hszinc, make_grid(hszinc))     # on a grid of its own: the judged grid is untouched until the first judged filter
     mon = Monitor()
     # prove the hook is alive
     mon.run(lambda: (compile('1', '<vf-selftest>', 'eval'), open(os.devnull).close()))
@@ -363,8 +398,8 @@ def replay(case, ctx):
     g = make_grid(hszinc)
 
     def grid_snap(gr):
-        return repr(hs.from_grid(gr)) + repr([id(r) for r in gr])
-    warm_up(hszinc, g)
+        return grid_observations(hszinc, hs, gr)
+    warm_up(hszinc, make_grid(hszinc))     # on a grid of its own: the judged grid is untouched until the first judged filter
     mon = Monitor()
     evaluate.snap0 = grid_snap(g)
     evaluate(ctx, mon, hszinc, gf, pp, g, case['text'], case.get('pos', 'replay'), None, grid_snap)
